@@ -45,6 +45,7 @@ def run(ctx, repo):
     XL.compose_identity(ctx, repo)
     ctx.call(RLNG.o_dump_subset_load, repo)
     ctx.call(RLNG.o_ts_inclusion, repo)
+    XL.scan_reference(ctx, repo)
 
 
 if __name__ == '__main__':
